@@ -963,6 +963,7 @@ pub fn generate(family: &str, seed: u64, count: usize, emit: &mut dyn FnMut(Stri
             for _ in 0..count {
                 let lit = gen_num_literal(&mut r);
                 emit(parse_op("b", R_DEFAULT, "v1", lit.as_bytes()));
+                if r.chance(1, 3) { let ro = if r.chance(1, 2) { R_ELISP.to_string() } else { gen_ropts(&mut r) }; emit(parse_op("b", &ro, "v1", lit.as_bytes())); }
                 // the same literal where what follows it matters, from the other sources too
                 if r.chance(1, 3) {
                     let ctx = *r.pick(&["(@)", "(@ x)", "#(@ 1)", "(a . @)", "@ y", "(@;c\n)", "[@]", "'@", "(@\"s\")", "(\n @)", "\n\n@", "(a\n\n  @ b)", ";c\n@", "(\"x\ny\"\n@)"]);
